@@ -93,6 +93,11 @@ type (
 		bucketSize       uint32
 		keyPosMap        map[string]int64
 		enabledKeyPosMap bool
+		// scanLiveOnly makes PrefixScan and PrefixSearchScan pass over deleted and
+		// expired records before offset and limit are applied. Set for the per-bucket
+		// trees of the RAM index modes; the sparse mode needs to see tombstones,
+		// which shadow older segments.
+		scanLiveOnly bool
 	}
 
 	// Records records multi-records as result when is called Range or PrefixScan.
@@ -504,6 +509,11 @@ func getRecordWrapper(numFound int, keys [][]byte, pointers []interface{}) (reco
 	return records, nil
 }
 
+func isDeadRecord(p interface{}) bool {
+	r, ok := p.(*Record)
+	return ok && r.H != nil && r.H.meta != nil && (r.H.meta.Flag == DataDeleteFlag || r.IsExpired())
+}
+
 // PrefixScan returns records at the given prefix and limitNum
 // limitNum: limit the number of the scanned records return.
 func (t *BPTree) PrefixScan(prefix []byte, offsetNum int, limitNum int) (records Records, off int, err error) {
@@ -536,6 +546,12 @@ func (t *BPTree) PrefixScan(prefix []byte, offsetNum int, limitNum int) (records
 			if !bytes.HasPrefix(n.Keys[i], prefix) {
 				scanFlag = false
 				break
+			}
+
+			// deleted and expired keys are filtered out of the result later on;
+			// in a RAM index they must not use up the offset or the limit either
+			if t.scanLiveOnly && isDeadRecord(n.pointers[i]) {
+				continue
 			}
 
 			if coff < offsetNum {
@@ -600,6 +616,10 @@ func (t *BPTree) PrefixSearchScan(prefix []byte, reg string, offsetNum int, limi
 			if !bytes.HasPrefix(n.Keys[i], prefix) {
 				scanFlag = false
 				break
+			}
+
+			if t.scanLiveOnly && isDeadRecord(n.pointers[i]) {
+				continue
 			}
 
 			if coff < offsetNum {
